@@ -183,33 +183,50 @@ Fixpoint parse_backends (bs : list backend) (vs : list val) : option (list (back
 Definition model_vals (b : backend) (evs : list event) : list (list val) :=
   vals_of_readback (read_back (run_hooks b evs)).
 
+(* one set of read-backs against spec and model; [phase] 0 = read from the open store, 1 = read after
+   the back end was closed and opened again on the same location *)
+Definition storage_check (es : list event) (phase : N) (obs : list val) : val :=
+  match parse_backends all_backends obs with
+  | Some ((b0, o0) :: rest) =>
+      let nontriv := 1 <? N.of_nat (length es) in
+      let all := (b0, o0) :: rest in
+      (* spec: every back end answers like the first one *)
+      let bad_spec := filter (fun bo => negb (comps_eqb (erase_observed o0) (erase_observed (snd bo)))) rest in
+      (* model: every back end answers like its model *)
+      let bad_model := filter (fun bo => negb (comps_eqb (model_vals (fst bo) es) (snd bo))) all in
+      let tg := if KF_C22_key_limit es then tag "storage-longkey" else tag "storage" in
+      match bad_spec, bad_model with
+      | [], [] => verdict 0 tg nontriv []
+      | [], (b, o) :: _ =>
+          verdict 2 tg nontriv [VN (backend_index b); VN (first_diff 0 (model_vals b es) o); VN phase]
+      | (b, o) :: _, [] =>
+          if KF_C22_key_limit es
+          then verdict 3 tg nontriv [VB (tag "KF_C22_key_limit"); VN (backend_index b)]
+          else verdict 1 tg nontriv [VN (backend_index b0); VN (backend_index b);
+                                     VN (first_diff 0 (erase_observed o0) (erase_observed o)); VN phase]
+      | (b, o) :: _, _ :: _ =>
+          verdict 1 tg nontriv [VN (backend_index b0); VN (backend_index b);
+                                VN (first_diff 0 (erase_observed o0) (erase_observed o)); VN phase]
+      end
+  | _ => bad_case
+  end.
+
+Definition verdict_code (v : val) : N := match v with VL (VN c :: _) => c | _ => 9 end.
+
 (* ENGINE storage Storage.StoreEngine.storage_engine *)
 Definition storage_engine (c : val) : val :=
   match c with
   | VL [VL evs; VL obs] =>
-      match map_opt parse_event evs, parse_backends all_backends obs with
-      | Some es, Some ((b0, o0) :: rest) =>
-          let nontriv := 1 <? N.of_nat (length es) in
-          let all := (b0, o0) :: rest in
-          (* spec: every back end answers like the first one *)
-          let bad_spec := filter (fun bo => negb (comps_eqb (erase_observed o0) (erase_observed (snd bo)))) rest in
-          (* model: every back end answers like its model *)
-          let bad_model := filter (fun bo => negb (comps_eqb (model_vals (fst bo) es) (snd bo))) all in
-          let tg := if KF_C22_key_limit es then tag "storage-longkey" else tag "storage" in
-          match bad_spec, bad_model with
-          | [], [] => verdict 0 tg nontriv []
-          | [], (b, o) :: _ =>
-              verdict 2 tg nontriv [VN (backend_index b); VN (first_diff 0 (model_vals b es) o)]
-          | (b, o) :: _, [] =>
-              if KF_C22_key_limit es
-              then verdict 3 tg nontriv [VB (tag "KF_C22_key_limit"); VN (backend_index b)]
-              else verdict 1 tg nontriv [VN (backend_index b0); VN (backend_index b);
-                                         VN (first_diff 0 (erase_observed o0) (erase_observed o))]
-          | (b, o) :: _, _ :: _ =>
-              verdict 1 tg nontriv [VN (backend_index b0); VN (backend_index b);
-                                    VN (first_diff 0 (erase_observed o0) (erase_observed o))]
-          end
-      | _, _ => bad_case
+      match map_opt parse_event evs with Some es => storage_check es 0 obs | None => bad_case end
+  | VL [VL evs; VL obs; VL reopened] =>
+      match map_opt parse_event evs with
+      | Some es =>
+          let v1 := storage_check es 0 obs in
+          (* what the store holds after closing and reopening must be the same state *)
+          if (verdict_code v1 =? 0) || (verdict_code v1 =? 3)
+          then (let v2 := storage_check es 1 reopened in if verdict_code v2 =? 0 then v1 else v2)
+          else v1
+      | None => bad_case
       end
   | _ => bad_case
   end.
